@@ -143,7 +143,7 @@ func genC19(r *core.Rand, stats map[string]int) c19Case {
 		cs.SrcCols = append(cs.SrcCols, src)
 	}
 	// a CSV column feeding two destinations of different types keeps the first type: the second sees unparsable text sometimes - a legitimate error path
-	cs.Sep = []string{",", ";", "\t", "|"}[r.Intn(4)]
+	cs.Sep = []string{",", ";", "\t", "|", ",", ";", "§", "·", "→", "，"}[r.Intn(10)]
 	nrec := r.Intn(40)
 	if r.Chance(1, 10) {
 		nrec = r.Range(100, 200)
@@ -290,7 +290,7 @@ func refImport(cs c19Case) (events string, rows [][]proto.Val, causes []string) 
 }
 
 func checkC19(c *core.Ctx) []core.Floor {
-	c.Rule = "destination tables of 1-5 columns over the four types (incl. BIGINT), column mappings (subsets, permutations, repeated source index), separators , ; tab |, streams of 0-200 records mixing valid fields, \\N markers, short records, bad quoting (bare quote, text after a closing quote, at most one never-closed quote), empty lines, unparsable and out-of-range numbers, unparsable booleans, oversized rows, quoted fields with separators / newlines / quotes inside. The real colDataTypes + doBatchInsert run against a real database (in-package go test -overlay driver); both channels are drained in arrival order and the table is read back. Reference: encoding/csv configured like the importer (CSV syntax is the standard library's responsibility) + an independent conversion: one event per record in record order, #ok + #err = #records, stored rows = accepted records in input order with the mapped columns converted (INT/BIGINT decimal with range check, BOOLEAN from 1/true/t/0/false/f, VARCHAR verbatim, \\N -> NULL), unmapped columns NULL. Distinct = (schema, mapping, CSV bytes); non-trivial = the stream contains at least one rejected and one accepted record."
+	c.Rule = "destination tables of 1-5 columns over the four types (incl. BIGINT), column mappings (subsets, permutations, repeated source index), separators , ; tab | and the non-ASCII § · → ， (given through the tool's own -separator flag handling), streams of 0-200 records mixing valid fields, \\N markers, short records, bad quoting (bare quote, text after a closing quote, at most one never-closed quote), empty lines, unparsable and out-of-range numbers, unparsable booleans, oversized rows, quoted fields with separators / newlines / quotes inside. The real makeConfig (flag values -> configuration) + colDataTypes + doBatchInsert run against a real database (in-package go test -overlay driver); both channels are drained in arrival order and the table is read back. Reference: encoding/csv configured like the importer (CSV syntax is the standard library's responsibility) + an independent conversion: one event per record in record order, #ok + #err = #records, stored rows = accepted records in input order with the mapped columns converted (INT/BIGINT decimal with range check, BOOLEAN from 1/true/t/0/false/f, VARCHAR verbatim, \\N -> NULL), unmapped columns NULL. Distinct = (schema, mapping, CSV bytes); non-trivial = the stream contains at least one rejected and one accepted record."
 	c.Assume = []string{"what a record is, is decided by encoding/csv with the importer's settings", "canonical number spellings only (optional leading minus, no plus sign, blanks or underscores)"}
 	bin, err := buildOverlayTest(c, "cmd/csvimport", "csvimport_driver_test.go", "zz_verif_driver_test.go")
 	if err != nil {
